@@ -401,3 +401,28 @@ def p_argmin(ex, path, x, axis=None):
     t = T((Axis("1", 1),), lambda k, m=m: m, kind="int", prov="fresh")
     t.argmin_of = (x, m)
     return t
+
+
+# ---- C16: np.min / np.max of a boolean-mask selection with an initial value ------------------------------------------
+def _sel_minmax(ismax):
+    def f(ex, path, x, axis=None, initial=None, **kw):
+        x = as_tensor(ex, path, x)
+        sel = getattr(x, "select_of", None)
+        if sel is None or initial is None:
+            raise Unsupported("np.min/np.max (only of a mask selection with an initial value has a contract)")
+        a, mask, sigma, rho, m = sel
+        n = toI(a.axes[0].size)
+        r = ex.new_real("selmax" if ismax else "selmin")
+        v0 = toR(initial)
+        i = Int("i!mm")
+        w = ex.new_int("w_attained")
+        le = (lambda p_, q_: p_ >= q_) if ismax else (lambda p_, q_: p_ <= q_)
+        path.add(le(r, v0))
+        path.add(ForAll([i], Implies(And(0 <= i, i < n, toB(mask.elem(i))), le(r, toR(a.elem(i))))))
+        path.add(Or(r == v0, And(0 <= w, w < n, toB(mask.elem(w)), r == toR(a.elem(w)))))
+        return r
+    return f
+
+
+PRIMS["np.min"] = _sel_minmax(False)
+PRIMS["np.max"] = _sel_minmax(True)
